@@ -208,6 +208,23 @@ CanonicalPayload(type, p) ==
     ELSE IF type = <<98, 54, 52>> THEN Len(p) % 4 = 0 /\ \A i \in 1..Len(p) : IsB64Char(p[i])
     ELSE TRUE
 
+\* a date-time <<14, y, m, d, h, mi, s, us, offSign, offSecs, zone>> as an instant: <<days since 1970-01-01
+\* (civil-from-days algorithm, proleptic Gregorian), second of day>> in UTC
+DaysFromCivil(y0, m, d) ==
+    LET y   == IF m <= 2 THEN y0 - 1 ELSE y0
+        era == (IF y >= 0 THEN y ELSE y - 399) \div 400
+        yoe == y - era * 400
+        mp  == IF m > 2 THEN m - 3 ELSE m + 9
+        doy == (153 * mp + 2) \div 5 + d - 1
+        doe == yoe * 365 + yoe \div 4 - yoe \div 100 + doy
+    IN era * 146097 + doe - 719468
+InstantOf(v) ==
+    LET off  == IF v[9] = 1 THEN 0 - v[10] ELSE v[10]
+        secs == v[5] * 3600 + v[6] * 60 + v[7] - off
+        days == DaysFromCivil(v[2], v[3], v[4])
+        carry == IF secs < 0 THEN 0 - ((86399 - secs) \div 86400) ELSE secs \div 86400
+    IN <<days + carry, secs - carry * 86400, v[8]>>
+
 (***************************************************************************)
 (* Machine state.                                                          *)
 (***************************************************************************)
@@ -443,8 +460,7 @@ Step(st, c0) ==
          ELSE IF IsDigit(c) \/ c \in {DOT, MINUS, COMMA, SP} THEN [s EXCEPT !.buf = Append(s.buf, c)]
          ELSE Reject(s, "bad_token")
     [] m = "binOrX" ->          \* after "Bin(" : a quote starts the 3.0 spelling Bin("mime")
-         IF c = DQ THEN (IF Pre3Now(s) THEN Reject(s, "v3_construct_under_v2")
-                         ELSE [Mode(s, "str") EXCEPT !.buf = <<>>, !.sctx = "xstr", !.a1 = cBin])
+         IF c = DQ /\ ~Pre3Now(s) THEN [Mode(s, "str") EXCEPT !.buf = <<>>, !.sctx = "xstr", !.a1 = cBin]
          ELSE IF ~Pre3Now(s) THEN Reject(s, "bin_raw_under_v3")
          ELSE IF c = RP THEN Deliver(s, <<9, <<>>>>)
          ELSE IF IsBinChar(c) THEN [Mode(s, "bin") EXCEPT !.buf = <<c>>]
@@ -487,8 +503,12 @@ Step(st, c0) ==
             ELSE IF c = NL /\ ~nested THEN CloseTopGrid(s)
             ELSE IF c = COMMA THEN Mode(Deliver(s, <<0>>), "cellStart")
             ELSE IF c = NL THEN Reject(s, "cell_count")
-            ELSE IF c = SP /\ ~s.strict THEN Mode(s, "cellStart")
+            ELSE IF c = SP /\ ~s.strict THEN Mode(s, IF nested THEN "rowStartSp" ELSE "cellStart")
             ELSE ValStart(s, c)
+    [] m = "rowStartSp" ->      \* blanks at the start of a line inside a nested grid: " >>" closes it (liberal)
+         IF c = SP THEN s
+         ELSE IF c = GTc THEN Mode(s, "gt2")
+         ELSE Step([Mode(s, "cellStart") EXCEPT !.pos = st.pos, !.line = st.line, !.col = st.col], c)
     [] m = "cellStart" ->       \* after a comma in a row
          IF c = COMMA THEN Mode(Deliver(s, <<0>>), "cellStart")
          ELSE IF c = NL THEN EndLine(Deliver(s, <<0>>))
